@@ -18,8 +18,10 @@ META = {
             "overflow reported through status whenever something was dropped and no status when everything attempted fits, status sticky, the scene at capacity c is bit for bit the first c geoms of the "
             "unbounded scene, a second mjv_updateScene gives the identical scene, and with only geoms drawn every scene geom's type/size/pos/mat equal the float casts of the model geom's "
             "geom_size (per-type layout of mjv_initGeom) / geom_xpos / geom_xmat. "
+            "The pose oracle runs in every option mode on every model geom of the unbounded scene, planes included; the scenes add planes (finite and infinite), boxes, spheres, capsules and cylinders "
+            "on offset+rotated jointless child bodies of the world (also nested) and on a mocap body moved and rotated before mj_forward; an infinite plane must stay in its plane and may only move along its infinite axes. "
             "PARTIAL/NOT PROVED: content of scene geoms other than identity and pose (colours, materials, labels), decor passes, lights, camera, flex and skin are only covered by the "
-            "prefix/determinism oracle; infinite planes (re-centred position) do not occur in the generated models. "
+            "prefix/determinism oracle; the exact re-centring step of infinite planes is not checked. "
             "OBSERVATION (model and implementation agree, not counted as a violation): acquireGeom is called before the alpha test, so an alpha-0 geom met when the buffer is exactly full "
             "raises status/warning although no drawable geom was dropped (Example C50_example_alpha0).",
     "note": "Trusted: Coq kernel; hand-written model Model/Scene.v; correspondence harness (gcc, driver c50_scene.c, mjgen.h models). All theorems closed under the global context.",
@@ -60,7 +62,7 @@ def run(ctx):
     pos = 0
     coq_cases, coq_src = [], []
     seen = set()
-    stats = {"scenarios": 0, "capacities": 0, "overflowing": 0, "exact_fit": 0, "pose_checked": 0, "alpha0_spurious_status": 0, "max_needed": 0}
+    stats = {"scenarios": 0, "capacities": 0, "overflowing": 0, "exact_fit": 0, "pose_checked": 0, "planes_checked": 0, "planes_off_world_frame": 0, "infinite_planes": 0, "alpha0_spurious_status": 0, "max_needed": 0}
     reported = set()
 
     def viol(what, case, exp, obs, site):
@@ -87,13 +89,13 @@ def run(ctx):
         fullstatus = int(hd[3].split()[1])
         stats["scenarios"] += 1
         stats["max_needed"] = max(stats["max_needed"], needed)
-        M, Fl = {}, {}
+        M, Fl = {}, []
         while lines[pos].startswith("M "):
             t = lines[pos].split(); pos += 1
             M[int(t[1])] = (int(t[2]), [float.fromhex(x) for x in t[3:]])
         while lines[pos].startswith("F "):
             t = lines[pos].split(); pos += 1
-            Fl[int(t[1])] = [float.fromhex(x) for x in t[2:]]
+            Fl.append((int(t[1]), int(t[2]), int(t[3]), [float.fromhex(x) for x in t[4:]]))
         # ---- independent expectation for the geom-only modes
         cm = catmask if vis_static else (catmask & ~1)
         attempts = [i for i, (cat, grp, alpha, typ) in enumerate(geoms) if (cat & cm) and geomgroup[max(0, min(5, grp))]]
@@ -103,20 +105,44 @@ def run(ctx):
         if mode in (0, 3):
             if needed != len(shown):
                 viol("number of geoms in the unbounded scene", {"scenario": cmd}, len(shown), needed, "content")
-            # pose / size of every geom of the full scene
-            for k, i in enumerate(shown[:needed]):
-                typ, vals = M[i]
-                size, xpos, xmat = vals[0:3], vals[3:6], vals[6:15]
-                if typ == 2:      # sphere
-                    es = [size[0]] * 3
-                elif typ in (3, 5):  # capsule, cylinder
-                    es = [size[0], size[0], size[1]]
-                else:
-                    es = size
-                exp = [f32(x) for x in es + xpos + xmat]
-                stats["pose_checked"] += 1
-                if Fl.get(k) != exp:
-                    viol("size/pos/mat of scene geom %d (model geom %d)" % (k, i), {"scenario": cmd}, exp, Fl.get(k), "pose")
+            if [f[1] for f in Fl] != shown[:needed]:
+                viol("model geoms of the unbounded scene", {"scenario": cmd}, shown, [f[1] for f in Fl], "content")
+        # ---- type / size / pos / mat of every model geom of the unbounded scene (all modes), planes included:
+        # the float casts of geom_size (per-type layout of mjv_initGeom), geom_xpos, geom_xmat; an infinite
+        # plane (size <= 0 along x or y) is re-centred under the camera along its infinite axes only
+        for (k, i, styp, vals) in Fl:
+            if i not in M:
+                viol("scene geom with objid outside the model", {"scenario": cmd}, "0..ngeom-1", i, "content"); continue
+            typ, mv = M[i]
+            size, xpos, xmat = mv[0:3], mv[3:6], mv[6:15]
+            if typ == 2:      # sphere
+                es = [size[0]] * 3
+            elif typ in (3, 5):  # capsule, cylinder
+                es = [size[0], size[0], size[1]]
+            else:
+                es = size
+            stats["pose_checked"] += 1
+            case = {"scenario": cmd, "scene_geom": k, "model_geom": i, "geom_type": typ}
+            if styp != typ:
+                viol("type of scene geom", case, typ, styp, "pose")
+            if vals[0:3] != [f32(x) for x in es] or vals[6:15] != [f32(x) for x in xmat]:
+                viol("size/mat of scene geom", case, [f32(x) for x in es + xmat], vals[0:3] + vals[6:15], "pose")
+            infinite = typ == 0 and (size[0] <= 0 or size[1] <= 0)
+            if typ == 0:
+                stats["planes_checked"] += 1
+                if any(abs(xmat[j] - (1.0 if j in (0, 4, 8) else 0.0)) > 1e-9 for j in range(9)):
+                    stats["planes_off_world_frame"] += 1
+            if not infinite:
+                if vals[3:6] != [f32(x) for x in xpos]:
+                    viol("pos of scene geom differs from geom_xpos", case, [f32(x) for x in xpos], vals[3:6], "pose")
+            else:
+                stats["infinite_planes"] += 1
+                dlt = [vals[3 + j] - xpos[j] for j in range(3)]
+                scale = 1e-5 * (1 + max(abs(x) for x in vals[3:6]) + max(abs(x) for x in xpos))
+                for ax in range(3):
+                    comp = sum(dlt[j] * xmat[3 * j + ax] for j in range(3))   # along column ax of geom_xmat
+                    if (ax == 2 or size[ax] > 0) and abs(comp) > scale:
+                        viol("infinite plane moved off its plane / along a finite axis", case, "0 along axis %d" % ax, comp, "pose")
         while lines[pos].startswith("E "):
             viol("mju_error in mjv_updateScene", {"scenario": cmd}, "no error", lines[pos][:300], "error"); pos += 1
         while lines[pos].startswith("S ") or lines[pos].startswith("E "):
